@@ -227,6 +227,10 @@ def check(P: Project, R: Report) -> None:
             if isinstance(s, ast.Assign) and isinstance(s.targets[0], ast.Tuple) and ast.unparse(s.value) == f"{buf}.split('\\n', 1)" and ast.unparse(s.targets[0].elts[1]) == buf:
                 ok_split = True
     R.ob("R6", "only complete lines are cut off the buffer, at LF", bool(wh) and ok_split, pf.where, "expected `while '\\n' in buffer: line, buffer = buffer.split('\\n', 1)`", sample="R6 while '\\n' in buffer: line, buffer = buffer.split('\\n', 1)")
+    from . import _chunks
+
+    _chunks.no_discard_before_accumulate(R, "R6", pf, loop, pf.qual)
+    _chunks.line_cut_discipline(R, "R6", pf, loop, [buf], pf.qual)
     decodes = [c for c in walk_local(pf.node) if isinstance(c, ast.Call) and isinstance(c.func, ast.Attribute) and c.func.attr == "decode"]
     R.ob("R6", "no stateless per-chunk decode (httpx's aiter_text decodes incrementally)", not decodes and "aiter_text" in ast.unparse(loop.iter), pf.where, "")
     grammar_rule(P, R, A.MOD_SSE, "R6", "")
